@@ -62,6 +62,56 @@ theorem ok_of_okVal {r : Res Int} {t : Int} (h : okVal r = some t) : r = .ok t :
   | ok v => simp only [okVal, Option.some.injEq] at h; rw [h]
   | error e => simp [okVal] at h
 
+/-! ### the business-day step: every datetime constructed on the way is range-checked -/
+
+/-- a datetime: inside [0001-01-01, 9999-12-31] -/
+def InRange (t : Int) : Prop := 0 ≤ t ∧ t < MAXUS
+
+instance (t : Int) : Decidable (InRange t) := by unfold InRange; infer_instance
+
+theorem walkDays_ok (t c r : Int) (ks : List Int) :
+    walkDays t c ks = .ok r ↔ (∀ k ∈ ks, InRange (t + k * DAYUS)) ∧ r = (ks.getLast?.map (fun k => t + k * DAYUS)).getD c := by
+  induction ks generalizing c with
+  | nil => simp only [walkDays, List.not_mem_nil, false_imp_iff, implies_true, true_and, List.getLast?_nil, Option.map_none, Option.getD_none]
+           constructor
+           · intro e; cases e; rfl
+           · intro e; rw [e]
+  | cons k ks ih =>
+    simp only [walkDays, List.mem_cons, forall_eq_or_imp]
+    by_cases hk : InRange (t + k * DAYUS)
+    · have : checkRange (t + k * DAYUS) = .ok (t + k * DAYUS) := (checkRange_ok _ _).2 ⟨hk, rfl⟩
+      simp only [this, Except.bind, ih, hk, true_and]
+      cases ks with
+      | nil => simp
+      | cons k' ks' =>
+        obtain ⟨l, hl⟩ : ∃ l, (k' :: ks').getLast? = some l := ⟨_, List.getLast?_eq_some_getLast (by simp)⟩
+        simp [List.getLast?_cons_cons, hl]
+    · have : ∃ e, checkRange (t + k * DAYUS) = .error e := by
+        unfold checkRange; unfold InRange at hk; simp only [hk, if_false]; exact ⟨_, rfl⟩
+      obtain ⟨e, he⟩ := this
+      simp only [he, Except.bind, hk, false_and, iff_false]
+      intro x; cases x
+
+/-- the offsets the block passes through: after the weekend roll, after the whole weeks, after the remaining days -/
+theorem bOffPath_eq (w n : Int) :
+    bOffPath w n = [if w > 4 then 7 - w else 0, (if w > 4 then 7 - w else 0) + 7 * (n / 5), bOff w n] := by
+  unfold bOffPath bOff; simp only []; split <;> simp
+
+/-- the `'nb'` step succeeds iff each of the three datetimes it constructs is representable; its value is the closed form -/
+theorem bday_ok_iff (t n r : Int) :
+    applyStep t (.bday n) = .ok r ↔
+      (∀ k ∈ bOffPath (wdOf t) n, InRange (t + k * DAYUS)) ∧ r = t + bOff (wdOf t) n * DAYUS := by
+  simp only [applyStep, walkDays_ok]
+  rw [bOffPath_eq]; simp
+
+/-- what a successful `'nb'` step returns (the final value only) -/
+theorem bday_ok (t n r : Int) (h : applyStep t (.bday n) = .ok r) :
+    (0 ≤ t + bOff (wdOf t) n * DAYUS ∧ t + bOff (wdOf t) n * DAYUS < MAXUS) ∧ r = t + bOff (wdOf t) n * DAYUS := by
+  rw [bday_ok_iff] at h
+  refine ⟨?_, h.2⟩
+  have := h.1 (bOff (wdOf t) n) (by rw [bOffPath_eq]; simp)
+  exact this
+
 /-! ### microsecond representation -/
 
 theorem ordOf_add_days (t k : Int) : ordOf (t + k * DAYUS) = ordOf t + k := by
